@@ -385,6 +385,45 @@ pub fn run(prop: &str, tier: &str, replay: Option<&str>) -> i32 {
         });
         rep.add(sec);
     }
+    {
+        // the time fields of ONE revocation list in relation to each other: thisUpdate, a revocation date and an invalidity date a
+        // fraction of a second apart, on both sides of a whole second and of each other (what is written for one field must not
+        // depend on how close another field is)
+        let fr: [i64; 13] = [-1_100_000_000, -900_000_000, -100_000_000, -1, 0, 1, 100_000_000, 500_000_000, 900_000_000, 999_999_999, 1_000_000_000, 1_100_000_000, 1_900_000_000];
+        let bases = [TimeSpec::ymdhms(2024, 6, 30, 12, 0, 0), TimeSpec::ymdhms(2049, 12, 31, 23, 59, 59), TimeSpec::ymdhms(1949, 12, 31, 23, 59, 59).with_offset(-3600), TimeSpec::ymdhms(2061, 1, 1, 0, 0, 0).with_offset(7200)];
+        let at = |b: &TimeSpec, ns: i64| {
+            let total = b.nanos as i64 + ns;
+            TimeSpec { unix: b.unix + total.div_euclid(1_000_000_000), nanos: total.rem_euclid(1_000_000_000) as u32, offset: b.offset }
+        };
+        let cases: Vec<(usize, usize, usize, usize)> = (0..bases.len()).flat_map(|b| (0..fr.len()).flat_map(move |a| (0..fr.len()).flat_map(move |r| (0..fr.len()).map(move |i| (b, a, r, i))))).collect();
+        let sec = Section::new("crl/fields a fraction of a second apart", &format!("thisUpdate = base + a, revocationDate = base + r, invalidityDate = base + i (a second entry has the two swapped), nextUpdate = base + 2 days + i, for a, r, i over {} distances from -1.1 s to +1.9 s, at {} bases (both form boundaries among them)", fr.len(), bases.len())).with_deadline(cap);
+        run::sweep_cases(&sec, &cases, &|c| format!("base #{} this{:+}ns revoked{:+}ns invalid{:+}ns", c.0, fr[c.1], fr[c.2], fr[c.3]), &|c| {
+            let mut out = Outcome::default();
+            let b = &bases[c.0];
+            let (this, rev, inv) = (at(b, fr[c.1]), at(b, fr[c.2]), at(b, fr[c.3]));
+            let next = at(&TimeSpec { unix: b.unix + 2 * 86400, ..*b }, fr[c.3]);
+            let revoked = vec![
+                RevokedSpec { serial: vec![5], time: rev, reason: None, invalidity: Some(inv) },
+                RevokedSpec { serial: vec![6], time: inv, reason: Some(1), invalidity: Some(rev) },
+                RevokedSpec { serial: vec![7], time: rev, reason: None, invalidity: None },
+            ];
+            let cst = CrlState { this_update: this, next_update: next, revoked, ..CrlState::default() };
+            let ev = eval_crl(&cst, issuer);
+            out.transitions = ev.transitions;
+            if let Some(t) = &ev.tbs {
+                out.digest = fnv(t);
+            }
+            if let Some(p) = &ev.panic {
+                out.findings.push(Finding::new("TIME-PANIC(crl)", "thisUpdate/nextUpdate/revocationDate", p.clone()));
+            }
+            if let Some(e) = &ev.err {
+                out.findings.push(Finding::new("TIME-REFUSED(crl)", "thisUpdate/nextUpdate", e.clone()));
+            }
+            out.findings.extend(ev.findings.into_iter().filter(|f| crate::certeval::relevant(prop, f)));
+            out
+        });
+        rep.add(sec);
+    }
     let _ = stub_key;
     run::finish(rep)
 }
